@@ -57,6 +57,8 @@ def template_init(j=0):
     _wrap_simulator(hx, 'main', 'hip_ra_x')
     _wrap_simulator(hr, 'main', 'hip_ra')
     _stub_pyplot(plt)
+    if _toy_popen not in K.POPEN_HANDLERS:
+        K.POPEN_HANDLERS.append(_toy_popen)
     # module-level generator objects of the Monte-Carlo package are process-private state as well
     _state['rng_modules'] = [m for n, m in sys.modules.items()
                              if n.startswith(('geophires_monte_carlo', 'geophires_x_client', 'hip_ra'))]
@@ -89,6 +91,30 @@ def _wrap_simulator(mod, attr, label):
     main._dsim = True
     main.__wrapped__ = real
     setattr(mod, attr, main)
+
+
+def _toy_popen(p, argv, kw):
+    """the child process the driver starts for a Code_File it does not know: `python <site_model.py> <input> <output>` runs to
+    completion as one step of the calling worker (it touches only the two files named on its command line)"""
+    if not isinstance(argv, (list, tuple)) or len(argv) < 4 or os.path.basename(str(argv[1])) != WL.TOY_NAME:
+        return None
+    k = p.kernel
+    with K.atomic_section('compute', 'site_model'):
+        try:
+            with K._real['open'](str(argv[2]), encoding='utf-8') as f:
+                txt = f.read()
+        except OSError as e:
+            k.note('sim_end', ok=False, task=p.task, exc=type(e).__name__, msg='input file')
+            return 2
+        rep = WL.toy_report(txt)
+        if rep is None:
+            k.note('sim_end', ok=False, task=p.task, exc='exit status 1', msg='the program wrote no report')
+            return 1
+        with K._real['open'](str(argv[3]), 'w', encoding='utf-8') as f:
+            f.write(rep)
+        k.touch_path(os.path.abspath(str(argv[3])))
+        k.note('sim_end', ok=True, task=p.task)
+        return 0
 
 
 class _NoSection:
@@ -182,6 +208,12 @@ def _warm_up():
 def reference_run(prog, input_path):
     """run one input through the real client outside any simulation; returns report text"""
     from pathlib import Path
+    if prog == 'toy':
+        with K._real['open'](input_path, encoding='utf-8') as f:
+            rep = WL.toy_report(f.read())
+        if rep is None:
+            raise RuntimeError('the program wrote no report')
+        return rep
     cwd = os.getcwd()
     argv = sys.argv
     try:
@@ -220,13 +252,13 @@ def gen_config(cs, tier='quick', force=None):
     force = force or {}
     c = {}
     c['mode'] = force.get('mode') or ('strict' if cs.choose(4, 'mode') < 3 else 'extended')
-    c['program'] = force.get('program') or ['hip', 'hip', 'hip', 'hip', 'hipold', 'geo', 'geo'][cs.choose(7, 'program')]
+    c['program'] = force.get('program') or ['hip', 'hip', 'hip', 'hip', 'hipold', 'geo', 'geo', 'toy'][cs.choose(8, 'program')]
     hip = c['program'] != 'geo'
     c['base'] = cs.choose(2, 'base')
     if force.get('base') is not None:
         c['base'] = force['base']
-    table = {'hip': WL.HIP_INPUTS, 'hipold': WL.HIPOLD_INPUTS, 'geo': WL.GEO_INPUTS}[c['program']]
-    outs = {'hip': WL.HIP_OUTPUTS, 'hipold': WL.HIPOLD_OUTPUTS, 'geo': WL.GEO_OUTPUTS}[c['program']]
+    table = {'hip': WL.HIP_INPUTS, 'hipold': WL.HIPOLD_INPUTS, 'geo': WL.GEO_INPUTS, 'toy': WL.TOY_INPUTS}[c['program']]
+    outs = {'hip': WL.HIP_OUTPUTS, 'hipold': WL.HIPOLD_OUTPUTS, 'geo': WL.GEO_OUTPUTS, 'toy': WL.TOY_OUTPUTS}[c['program']]
     if c['program'] == 'geo' and _state.get('geo3') and force.get('base') is None and cs.choose(3, 'geo3') == 2:
         c['base'] = 2
         outs = list(reversed(_state['geo3']['outputs']))     # the separator-printed outputs first in the pick order
@@ -401,7 +433,7 @@ def settings_text(c):
             args = [str(int(a)) if isinstance(a, float) and a == int(a) and abs(a) < 1e15 else s_ for a, s_ in zip(i['args'], args)]
         if sp == 4:
             # scientific notation and explicit signs: every spelling float() accepts is a legal argument
-            args = [_sci(a) if isinstance(a, float) else ('+' + s_ if i['dist'] != 'binomial' else s_) for a, s_ in zip(i['args'], args)]
+            args = [_sci(a) if isinstance(a, float) else ('+' + s_ if i['dist'] != 'binomial' and not s_.startswith('-') else s_) for a, s_ in zip(i['args'], args)]
         if i.get('hash_arg') is not None:
             args[i['hash_arg']] = '#'
         dist = i['dist'] + (' distribution' if sp == 2 else '')
@@ -432,6 +464,8 @@ def _other_base_text(c):
         return WL.HIP_BASE_2 if base_text(c) == WL.HIP_BASE else WL.HIP_BASE
     if c['program'] == 'hipold':
         return WL.HIPOLD_BASE_2 if base_text(c) == WL.HIPOLD_BASE else WL.HIPOLD_BASE
+    if c['program'] == 'toy':
+        return WL.TOY_BASE_2 if base_text(c) == WL.TOY_BASE else WL.TOY_BASE
     return WL.GEO_BASE_2 if base_text(c) == WL.GEO_BASE else WL.GEO_BASE
 
 
@@ -442,6 +476,8 @@ def base_text(c):
         return [WL.HIP_BASE, WL.HIP_BASE_2][c['base']]
     if c['program'] == 'hipold':
         return [WL.HIPOLD_BASE, WL.HIPOLD_BASE_2][c['base']]
+    if c['program'] == 'toy':
+        return [WL.TOY_BASE, WL.TOY_BASE_2][c['base']]
     if c['base'] == 2:
         return _state['geo3']['text']
     return [WL.GEO_BASE, WL.GEO_BASE_2][c['base']]
@@ -498,6 +534,27 @@ def run_one(payload):
                       work, ['mc-driver'])
         outcome = {}
 
+        toy_code = os.path.join(work, 'models', WL.TOY_NAME)
+        if c['program'] == 'toy':
+            os.makedirs(os.path.dirname(toy_code), exist_ok=True)
+            with open(toy_code, 'w') as f:
+                f.write('# user-supplied program: <input file> <output file>\n')
+
+        def launch(prog, inp_, stg_, out_):
+            """one Monte-Carlo run through the public client - or, for a program the client has no name for, through the driver's
+            own entry point the way `python -m geophires_monte_carlo <Code_File> <input> <settings> <output>` calls it"""
+            from pathlib import Path
+            from geophires_monte_carlo import GeophiresMonteCarloClient
+            from geophires_monte_carlo import MonteCarloRequest
+            if c['program'] != 'toy':
+                return GeophiresMonteCarloClient().get_monte_carlo_result(MonteCarloRequest(prog, Path(inp_), Path(stg_), Path(out_)))
+            from geophires_monte_carlo import MC_GeoPHIRES3
+            cwd0 = os.getcwd()
+            try:
+                return MC_GeoPHIRES3.main(command_line_args=[toy_code, str(inp_), str(stg_), str(out_)])
+            finally:
+                os.chdir(cwd0)
+
         def parent():
             from pathlib import Path
             from geophires_monte_carlo import GeophiresMonteCarloClient
@@ -517,9 +574,7 @@ def run_one(payload):
                         f0.write(_other_base_text(c))
                     k.touch_path(inp)
                 try:
-                    GeophiresMonteCarloClient().get_monte_carlo_result(
-                        MonteCarloRequest(prog, Path(inp), Path(stg0),
-                                          Path(out if c.get('pre_same_out') else os.path.join(work, 'pre', 'MC_Pre.txt'))))
+                    launch(prog, inp, stg0, out if c.get('pre_same_out') else os.path.join(work, 'pre', 'MC_Pre.txt'))
                 except BaseException as e:  # noqa: BLE001
                     if isinstance(e, (K.SimFatal, K.ProcKilled)):
                         raise
@@ -538,12 +593,12 @@ def run_one(payload):
                     from geophires_monte_carlo import MC_GeoPHIRES3
                     cwd0 = os.getcwd()
                     try:
-                        MC_GeoPHIRES3.main(command_line_args=[str(prog.code_file_path), inp, stg]
+                        MC_GeoPHIRES3.main(command_line_args=[toy_code if c['program'] == 'toy' else str(prog.code_file_path), inp, stg]
                                            + ([os.path.join(work, 'cmdline_out.txt')] if c['settings_out'] == 2 else []))
                     finally:
                         os.chdir(cwd0)
                 else:
-                    GeophiresMonteCarloClient().get_monte_carlo_result(MonteCarloRequest(prog, Path(inp), Path(stg), Path(out)))
+                    launch(prog, inp, stg, out)
                 outcome['main'] = 'ok'
             except Exception as e:  # noqa: BLE001  (called directly, the driver raises whatever it raises)
                 outcome['main'] = 'raised'
@@ -586,9 +641,9 @@ def run_one(payload):
                 from geophires_monte_carlo import SimulationProgram
                 prog = {'hip': SimulationProgram.HIP_RA_X, 'hipold': SimulationProgram.HIP_RA}.get(c['program'], SimulationProgram.GEOPHIRES)
                 try:
-                    GeophiresMonteCarloClient().get_monte_carlo_result(MonteCarloRequest(prog, Path(inp_b), Path(stg_b), Path(out_b)))
+                    launch(prog, inp_b, stg_b, out_b)
                     outcome_b['main'] = 'ok'
-                except RuntimeError as e:
+                except Exception as e:  # noqa: BLE001
                     outcome_b['main'] = 'raised'
                     outcome_b['msg'] = str(e)[:300]
                 outcome_b['cwd_after'] = os.getcwd()
